@@ -463,3 +463,5 @@ def run(ctx):
     from .. import errdisc
     errdisc.check(ctx, 'C03.RD', 'C03', 46)
     boundaries.check_stream_new(ctx, 'C03.RN')
+    from .. import boundaries as _b
+    _b.check_predicates(ctx, 'C03.RP', 'C03')
